@@ -56,4 +56,202 @@ theorem columnLoop_best_cases (cfg : Cfg) (ascii : Bool) (refE ref : Bytes) (m :
       · exact .inl ⟨rfl, rfl⟩
     · exact .inl ⟨rfl, rfl⟩
 
+
+theorem D_copy_diag {ctx : Ctx} {p : Nat} (hX : CopyAt ctx p) (hsq : ctx.cfg.startInQuery = true) :
+    ∀ t, t ≤ ctx.ref.length → D ctx 0 t (p + t) = 0
+  | 0, _ => D_row_startQ hsq _
+  | t+1, ht => by
+    have := D_match (ctx := ctx) (j0 := 0) t (p + t) (by rw [Nat.zero_add]; exact hX t (by omega))
+    rw [← Nat.add_assoc, this]
+    exact D_copy_diag hX hsq t (by omega)
+
+/-- bookkeeping around the column `p + m` where the leftmost error-free copy ends -/
+def Phase (m p j : Nat) (s : LoopState) : Prop :=
+  (s.best.found = true → s.best.refStop = m) ∧
+  (j < p + m → s.done = false) ∧
+  (p + m ≤ j → s.best.found = true ∧ s.best.queryStop ≤ p + m ∧ s.best.origin ≤ (p : Int) ∧
+    (s.done = false → 0 ≤ s.best.origin ∧ s.best.origin + ((m / 2 : Nat) : Int) < (p : Int)))
+
+theorem initState_Z (cfg : Cfg) (ref query : Bytes) (p : Nat) (hsq : cfg.startInQuery = true)
+    (hstop : cfg.stopInQuery = true) (hm : 1 ≤ ref.length) :
+    InvZ cfg ref query p 0 (initState cfg ref.length query.length) := by
+  have hj0 : minNOf cfg ref.length query.length = 0 := minNOf_stopInQuery hstop _ _
+  have h0 : ((initState cfg ref.length query.length).col.getD 0 default).origin = 0 := by
+    show (((List.range (ref.length + 1)).map (initEntry cfg _)).getD 0 default).origin = 0
+    rw [getD_map_range _ _ _ _ (Nat.zero_le _), hj0]
+    unfold initEntry
+    rw [hsq]
+    split <;> simp_all
+  refine ⟨.inl rfl, fun i hi _ hp => ?_, h0, fun h => absurd rfl h, fun h => absurd rfl h, ?_, fun h => absurd rfl h⟩
+  · have hi0 : i = 0 := by omega
+    have hp0 : p = 0 := by omega
+    subst hi0 hp0
+    rw [h0]; exact Int.le_refl _
+  · show 1 ≤ (if cfg.startInRef = true then ref.length else min ref.length (cfg.k + 1))
+    split <;> omega
+
+theorem finalBest_cut (cfg : Cfg) (ref query : Bytes) (hwf : cfg.WF ref.length)
+    (hsq : cfg.startInQuery = true) (hstop : cfg.stopInQuery = true) (hm : 1 ≤ ref.length)
+    (hmo : cfg.minOverlap ≤ ref.length) {p : Nat} (hpn : p + ref.length ≤ query.length)
+    (hX : CopyAt (mkCtx cfg ref query) p)
+    (hleast : ∀ p', p' < p → ¬ ∃ s, lhs s = seg (encodeRef cfg ref) 0 ref.length ∧
+      rhs s = seg (encodeQuery cfg query) p' (p' + ref.length) ∧ cost cfg.eq cfg.indelCost s = 0) :
+    (finalBest cfg ref query).found = true ∧ (finalBest cfg ref query).origin ≤ (p : Int) ∧
+      (finalBest cfg ref query).queryStop ≤ p + ref.length := by
+  have hj0 : minNOf cfg ref.length query.length = 0 := minNOf_stopInQuery hstop _ _
+  have hcase : minNOf cfg ref.length query.length = 0 ∨ cfg.startInQuery = true := .inl hj0
+  have hmaxN : maxNOf cfg ref.length query.length = query.length := by unfold maxNOf; simp [hsq]
+  have hmlen : (mkCtx cfg ref query).ref.length = ref.length := encodeRef_length cfg ref
+  have hnlen : (mkCtx cfg ref query).query.length = query.length := encodeQuery_length cfg query
+  have hD0 : D (mkCtx cfg ref query) 0 ref.length (p + ref.length) = 0 := by
+    have := D_copy_diag hX hsq ref.length (by rw [hmlen]; exact Nat.le_refl _)
+    exact this
+  -- a recorded match that scores m before the copy ends contradicts leftmost-ness
+  have hearly : ∀ (b : Best), BestInv cfg ref query b → BestS ref.length b → b.found = true →
+      b.queryStop < p + ref.length → b.score < (ref.length : Int) := by
+    intro b hbi hbs hbf hbq
+    apply Int.lt_of_not_ge; intro hge
+    obtain ⟨hc, hr, ho, hq⟩ := best_exact_of_score hwf hbi hbs hbf hge
+    have hs := hbi hbf
+    obtain ⟨s, hl, hr', hcs⟩ := hs.script
+    rw [decode_nonneg ho] at hl hr'
+    simp only at hl hr'
+    rw [hr] at hl; rw [hq] at hr'; rw [hc] at hcs
+    exact hleast b.origin.toNat (by omega) ⟨s, hl, hr', Nat.le_zero.mp hcs⟩
+  obtain ⟨hP, _⟩ := finalState_ind cfg ref query
+    (fun j s => (Inv cfg ref query j s ∧ InvU cfg ref query j s ∧ InvS cfg ref query j s) ∧
+      (s.done = false → InvZ cfg ref query p j s) ∧ Phase ref.length p j s)
+    ⟨⟨initState_inv hwf, initState_U hwf hcase, initState_S cfg ref query hcase⟩,
+      fun _ => (by rw [hj0]; exact initState_Z cfg ref query p hsq hstop hm),
+      fun h => (by cases h), fun _ => rfl, fun h => (by rw [hj0] at h; omega)⟩
+    (fun j s hj hj1 hj2 ⟨⟨hI, hU, hS⟩, hZ, hrs, hph1, hph2⟩ => by
+      have hI' := columnLoop_inv hwf hj hI
+      have hU' := columnLoop_U hwf hj hI hU
+      have hS' := columnLoop_S hwf hj hI hS
+      refine ⟨⟨hI', hU', hS'⟩, ?_⟩
+      by_cases hd : s.done = true
+      · -- frozen
+        have hjge : p + ref.length ≤ j := by
+          apply Nat.le_of_not_lt; intro hlt; have := hph1 hlt; rw [hd] at this; cases this
+        have heq : columnLoop cfg (compareAscii cfg) (encodeRef cfg ref) ref ref.length s
+            (j+1, (encodeQuery cfg query)[j]'(by rw [encodeQuery_length]; exact hj)) = s := by
+          unfold columnLoop; simp only [hd, if_true]
+        rw [heq]
+        exact ⟨fun h => (by rw [hd] at h; cases h), hrs, fun h => (by omega), fun _ => hph2 hjge⟩
+      · have hd' : s.done = false := by simpa using hd
+        have hZ' := columnLoop_Z hwf hX hsq hstop hj hI hU (hZ hd') hd'
+        refine ⟨fun _ => hZ', ?_⟩
+        have hcases := columnLoop_best_cases cfg (compareAscii cfg) (encodeRef cfg ref) ref ref.length s (j+1)
+          ((encodeQuery cfg query)[j]'(by rw [encodeQuery_length]; exact hj)) hd' hI.last_le
+        have hrs' : (columnLoop cfg (compareAscii cfg) (encodeRef cfg ref) ref ref.length s
+            (j+1, (encodeQuery cfg query)[j]'(by rw [encodeQuery_length]; exact hj))).best.found = true →
+            (columnLoop cfg (compareAscii cfg) (encodeRef cfg ref) ref ref.length s
+            (j+1, (encodeQuery cfg query)[j]'(by rw [encodeQuery_length]; exact hj))).best.refStop = ref.length := by
+          rcases hcases with ⟨hb, _⟩ | ⟨_, _, hb⟩
+          · rw [hb]; exact hrs
+          · rw [hb]; intro _; rfl
+        refine ⟨hrs', ?_, ?_⟩
+        · -- no early exit before the copy ends
+          intro hlt
+          cases hdn : (columnLoop cfg (compareAscii cfg) (encodeRef cfg ref) ref ref.length s
+            (j+1, (encodeQuery cfg query)[j]'(by rw [encodeQuery_length]; exact hj))).done
+          · rfl
+          · exfalso
+            obtain ⟨hf, hsc⟩ := hI'.doneBest hdn
+            have := hearly _ hI'.best hS'.bestS hf (by have := hS'.bestQ hf; omega)
+            omega
+        · intro hge
+          by_cases hjm : j + 1 = p + ref.length
+          · -- the column where the copy ends
+            have hD : D (mkCtx cfg ref query) (minNOf cfg ref.length query.length) ref.length
+                (j + 1 - minNOf cfg ref.length query.length) ≤ cfg.k := by
+              rw [hj0, Nat.sub_zero, hjm, hD0]; exact Nat.zero_le _
+            obtain ⟨e, hce, hg, hsc, hupd, hnupd⟩ := row_event hwf hj hI hU hd' hstop hD
+            rw [hj0, Nat.sub_zero, hjm, hD0] at hce
+            have hc0 : e.cost = 0 := by omega
+            have hdiag := good_zero_diag (ctx := mkCtx cfg ref query) hwf.indel_pos (by rw [hmlen]; exact Nat.le_refl _)
+              (by rw [hnlen]; omega) hg hc0
+            have hone := decode_one e.origin
+            have ha : (decode e.origin).1 = 0 := by omega
+            have hb : (decode e.origin).2 = p := by omega
+            have ho : e.origin = (p : Int) := by
+              rw [decode_fst] at ha; rw [decode_snd] at hb; omega
+            have hscore : e.score = (ref.length : Int) := by have := hsc.2 hc0; rw [ho] at this; omega
+            have hacc : accB cfg ref ref.length ref.length e = true :=
+              accB_of_start ha (by omega) (by rw [hc0]; exact Nat.zero_le _)
+            cases hru : rowUpd cfg ref ref.length s.best e
+            · obtain ⟨hb', hdn⟩ := hnupd hru
+              rw [hb', hdn]
+              unfold rowUpd at hru
+              rw [hacc, ho, hscore] at hru
+              cases hfd : s.best.found
+              · rw [hfd] at hru; simp at hru
+              · rw [hfd] at hru
+                have hbs := hearly s.best hI.best hS.bestS hfd (by have := hS.bestQ hfd; omega)
+                have hbq := hS.bestQ hfd
+                simp only [Bool.not_true, Bool.false_or, Bool.true_and, Bool.or_eq_false_iff,
+                  Bool.and_eq_false_iff, decide_eq_false_iff_not, Int.not_le, Int.not_lt] at hru
+                obtain ⟨h1, h2⟩ := hru
+                have h1' : s.best.origin + ((ref.length / 2 : Nat) : Int) < (p : Int) := by
+                  rcases h1 with h | h
+                  · exact h
+                  · omega
+                have h2' : 0 ≤ s.best.origin := by
+                  rcases h2 with h | h
+                  · unfold toNatI at h; omega
+                  · omega
+                exact ⟨rfl, by omega, by omega, fun _ => ⟨h2', h1'⟩⟩
+            · obtain ⟨hb', hdn⟩ := hupd hru
+              rw [hb', hdn, hc0, ho]
+              exact ⟨rfl, by simp only; omega, Int.le_refl _, fun h => by simp at h⟩
+          · -- beyond: nothing changes any more
+            have hjge : p + ref.length ≤ j := by omega
+            obtain ⟨hf, hq, ho, hnb⟩ := hph2 hjge
+            obtain ⟨hnb1, hnb2⟩ := hnb hd'
+            rcases hcases with ⟨hb, hdn⟩ | ⟨hru, hlf, _⟩
+            · rw [hb, hdn]; exact ⟨hf, hq, ho, fun _ => ⟨hnb1, hnb2⟩⟩
+            · exfalso
+              have hzm := hZ'.z ref.length (Nat.le_refl _) (.inr (by rw [hlf]; exact Nat.le_refl _)) (by omega)
+              generalize ((columnLoop cfg (compareAscii cfg) (encodeRef cfg ref) ref ref.length s
+                (j+1, (encodeQuery cfg query)[j]'(by rw [encodeQuery_length]; exact hj))).col.getD ref.length
+                default) = e at hru hzm
+              unfold rowUpd at hru
+              rw [hf] at hru
+              simp only [Bool.not_true, Bool.false_or, Bool.and_eq_true, Bool.or_eq_true, decide_eq_true_eq] at hru
+              obtain ⟨_, h | h⟩ := hru
+              · omega
+              · unfold toNatI at h; omega)
+  have hmin := minNOf_le cfg ref.length query.length
+  obtain ⟨⟨hI, hU, hS⟩, hZ, hrs, _, hph2⟩ := hP (by omega)
+  rw [hmaxN] at hI hU hS hZ hph2
+  obtain ⟨hf, hq, ho, hnb⟩ := hph2 hpn
+  have hfb : finalBest cfg ref query = (finalState cfg ref query).best := by
+    rw [finalBest_eq, hmaxN, if_pos (by simp)]
+    unfold lastColumnSearch
+    by_cases hd : (finalState cfg ref query).done = true
+    · obtain ⟨hfound, hsc⟩ := hI.doneBest hd
+      exact go_done _ _ _ _ _ _ _ (fun i hi => (hI.score i hi).1) _ _ _ hI.filled_le hfound hsc
+    · have hd' : (finalState cfg ref query).done = false := by simpa using hd
+      obtain ⟨hnb1, hnb2⟩ := hnb hd'
+      have hz := hZ hd'
+      have hn0 : query.length ≠ 0 := by omega
+      obtain ⟨hso, hlf1⟩ := hz.so hn0
+      have hsop : (p : Int) ≤ (finalState cfg ref query).origin := by
+        rw [hso]
+        exact hz.z _ hI.filled_le (.inr (Nat.le_refl _)) (by have := hI.filled_le; omega)
+      refine go_noupd _ _ _ _ _ _ _ (finalState cfg ref query).lastFilled _ ?_ _ _ (Nat.le_refl _)
+      intro i _ hi
+      unfold colUpd
+      rw [hf, hrs hf]
+      cases hacc : accB cfg ref ref.length i ((finalState cfg ref query).col.getD i default)
+      · simp
+      · simp only [Bool.not_true, Bool.false_or, Bool.true_and, Bool.or_eq_false_iff, Bool.and_eq_false_iff,
+          decide_eq_false_iff_not, Int.not_le, Int.not_lt]
+        refine ⟨.inl (by omega), .inl ?_⟩
+        unfold toNatI
+        have := hI.filled_le
+        omega
+  rw [hfb]
+  exact ⟨hf, ho, hq⟩
+
 end Cutadapt.Align.Exact
